@@ -30,7 +30,7 @@ fn floors(t: Tier) -> Vec<(String, u64)> {
     if t == Tier::Miri {
         return vec![("prefix.ok".into(), 20)];
     }
-    vec![("prefix.ok".into(), 10_000), ("sequence.ok".into(), 5000), ("overwrite.events".into(), 20_000), ("overwrite.on_length_field".into(), 20_000), ("item.msg".into(), 3000), ("item.avp".into(), 3000), ("item.data".into(), 1000), ("prefix.beyond_64k".into(), 500), ("sequence.beyond_64k".into(), 20)]
+    vec![("prefix.ok".into(), 10_000), ("sequence.ok".into(), 5000), ("overwrite.events".into(), 20_000), ("overwrite.on_length_field".into(), 20_000), ("item.msg".into(), 3000), ("item.avp".into(), 3000), ("item.data".into(), 1000), ("prefix.beyond_64k".into(), 500), ("window_writer".into(), 2000), ("sequence.beyond_64k".into(), 20)]
 }
 
 enum Val {
@@ -103,10 +103,20 @@ fn length_fields(vals: &[&Val], bytes: &[u8], base: usize) -> Option<Vec<usize>>
 }
 
 fn check_events(ctx: &mut Ctx, events: &[WEvent], vals: &[&Val], bytes: &[u8], prefix_len: usize, wit: &J) {
+    check_events_at(ctx, events, vals, bytes, prefix_len, 0, wit)
+}
+
+/// `origin` = absolute writer position of `bytes[0]` (non-zero for the window writer)
+fn check_events_at(ctx: &mut Ctx, events: &[WEvent], vals: &[&Val], bytes: &[u8], prefix_len: usize, origin: usize, wit: &J) {
     let fields = length_fields(vals, bytes, prefix_len);
     for e in events {
         if let WEvent::Overwrite { off, n, len_before } = e {
             ctx.rep.bucket("overwrite.events");
+            if *off < origin {
+                ctx.violate("C09:overwrite:before-window", format!("overwrite at absolute position {} but the value being encoded starts at {}", off, origin), wit.clone());
+                continue;
+            }
+            let (off, len_before) = (&(*off - origin), &(*len_before - origin.min(*len_before)));
             if *off < prefix_len {
                 ctx.violate("C09:overwrite:into-prefix", format!("overwrite [{}, +{}) reaches into the {} octets that were in the writer before", off, n, prefix_len), wit.clone());
             } else if off + n > *len_before {
@@ -165,6 +175,22 @@ fn run(ctx: &mut Ctx) {
                     exec::EncOut::Panic(p) => {
                         ctx.violate(format!("C09:prefix:panic:{}", p.class()), format!("encoding into a pre-filled writer panicked although the empty writer worked: {}", p.message), wit.clone());
                     }
+                }
+            }
+            // the same value through a writer whose positions start far from zero
+            if ctx.rng.chance(1, 4) {
+                let base = *ctx.rng.pick(&[1usize, 255, 65_535, 65_536, 0xffff_ffff, 0x1_0000_0000, 0x1_0000_1000, 1 << 48, usize::MAX / 2]);
+                ctx.rep.bucket("window_writer");
+                let w2 = J::obj(vec![("writer_base_position", J::U(base as u64)), ("encode_alone_hex", J::hex(&alone[..alone.len().min(512)]))]);
+                match exec::encode_items(&[], &[item(&v)], Wk::Offset(base)) {
+                    exec::EncOut::Ok(e) => {
+                        if e.bytes != alone {
+                            let at = e.bytes.iter().zip(alone.iter()).position(|(a, b)| a != b).unwrap_or(e.bytes.len().min(alone.len()));
+                            ctx.violate("C09:position-dependent-output", format!("a writer that starts at position {} received different octets than an empty writer (first difference at offset {})", base, at), w2.clone());
+                        }
+                        check_events_at(ctx, &e.events, &[&v], &e.bytes, 0, base, &w2);
+                    }
+                    exec::EncOut::Panic(p) => ctx.violate(format!("C09:position-dependent-panic:{}", p.class()), format!("encoding into a writer that starts at position {} panicked: {}", base, p.message), w2),
                 }
             }
             ctx.rep.sample(|| J::obj(vec![("prefix_octets", J::U(plen as u64)), ("value_hex", J::hex(&alone[..alone.len().min(48)]))]));
